@@ -195,7 +195,7 @@ class HangFound(Exception):
         self.traces = traces
 
 
-def validate_traces(paths, module="TraceSeq", parallel=6, timeout=3000, cfg=None):
+def validate_traces(paths, module="TraceSeq", parallel=8, timeout=3000, cfg=None):
     """Trace validation by TLC. Returns (fails, stats): fails = list of dict(trace, line, sid, tags)."""
     cfg = cfg or "CONSTANTS\n  NK = 4\n  SplitBigRecords = FALSE\nSPECIFICATION Spec\nPOSTCONDITION AllConsumed\nCHECK_DEADLOCK FALSE\n"
 
